@@ -44,6 +44,8 @@ pub struct Out {
     /// the operations the statement of the property under check speaks about; a tree that uses anything else is executed
     /// (panics, budget) but its value is not asserted by this check
     pub scope: Option<Scope>,
+    /// the vocabulary, when parser events are recorded (they are translated into token kinds)
+    pub vocab_for_events: Option<Vocab>,
 }
 
 #[derive(Clone, Debug, Default)]
@@ -120,9 +122,14 @@ impl Out {
         if !force && input.chars().count() > 100 && n % (every * 10) != 0 { return; }
         self.stats.events += 1;
         let val = match o { Outcome::Ok(v) => v.abstract_json(), _ => json!({"t": "none"}) };
-        let line = json!({"ev": "Call", "e": e, "chars": abstract_chars(input), "len": input.chars().count(),
+        let mut line = json!({"ev": "Call", "e": e, "chars": abstract_chars(input), "len": input.chars().count(),
                           "ph": ph.abstract_json(), "st": o.status(), "val": val, "canon": o.canon(),
                           "ticks": t.total(), "tk": {"lex": t.lex, "parse": t.parse, "eval": t.eval, "loops": t.loops}, "claim": claim});
+        if let Some(v) = &self.vocab_for_events {
+            // the events of the call just made (this thread): the step-level trace of the parser (spec/ParserTrace.tla)
+            let pev: Vec<Value> = crate::call::last_events().iter().map(|x| crate::vocab::abstract_event(v, x)).collect();
+            line["pev"] = Value::Array(pev);
+        }
         let _ = writeln!(self.events, "{}", line);
     }
     pub fn note_ticks(&mut self, input: &str, t: &Ticks) {
